@@ -1,63 +1,72 @@
-(** C08 -- statements that are FALSE of the faithful model (findings), with witnesses.
+(** C08 -- statements that WERE false of the faithful model of the code before fix commit 0ebe7e9
+    ("ETH and BSC proof verification rejects proof heights of another revision"), with witnesses.
+    [verify_old] is that code ([Model/EvmProof.v], [revgate = false]); the positive theorems of
+    Props/C08.v are about the repaired code ([verify]).
 
     The property says an accepted proof has a height "not above the client's head" with "the required
-    number of confirmation blocks passed".  The code checks [!head.LT(height)] -- [Height.Compare] orders
-    by REVISION NUMBER first -- and [head.RevisionHeight - height.RevisionHeight >= delay] in uint64 on the
-    revision heights only.  Nothing in the ETH / BSC header validation constrains the revision number of a
-    submitted header (it is not part of the block hash), so a client can hold consensus states of revision
-    0 and a head of revision 1.  Then a consensus state whose revision height is ABOVE the head passes the
-    head gate (0 < 1) and the delay gate (the subtraction wraps to almost 2^64). *)
+    number of confirmation blocks passed".  The old code checked [!head.LT(height)] -- [Height.Compare]
+    orders by REVISION NUMBER first -- and [head.RevisionHeight - height.RevisionHeight >= delay] in uint64
+    on the revision heights only.  Nothing in the ETH / BSC header validation constrains the revision
+    number of a submitted header (it is not part of the block hash), so a client can hold consensus states
+    of revision 0 and a head of revision 1.  Then a consensus state whose revision height is ABOVE the head
+    passed the head gate (0 < 1) and the delay gate (the subtraction wraps to almost 2^64). *)
 From Teleport Require Import Base.Bytes Base.Outcome Model.EvmProof Model.EvmProofCheck Model.EvmProofWitness
      Proofs.EvmProofRlp Proofs.EvmProof.
 Local Open Scope N_scope.
 
-(** For ALL oracles: any proof accepted at height [h] stays accepted under ANY head of a higher revision
-    number whose (wrapped) distance passes the delay gate -- in particular heads far below [h]. *)
-Theorem C08_gate_bypass : forall keccak256 mpt_verify json_proof cs cstore h p ack src dst seq c head',
-  verify keccak256 mpt_verify json_proof cs cstore (Some h) (Some p) ack src dst seq c = Ok tt ->
+(** For ALL oracles: any proof the old code accepted at height [h] stayed accepted under ANY head of a
+    higher revision number whose (wrapped) distance passes the delay gate -- in particular heads far
+    below [h]. *)
+Theorem C08_gate_bypass_refuted : forall keccak256 mpt_verify json_proof cs cstore h p ack src dst seq c head',
+  verify_old keccak256 mpt_verify json_proof cs cstore (Some h) (Some p) ack src dst seq c = Ok tt ->
   rn h < rn head' ->
   delay_block cs <= sub64 (rh head') (rh h) ->
-  verify keccak256 mpt_verify json_proof
+  verify_old keccak256 mpt_verify json_proof
          {| cs_kind := cs_kind cs; cs_head := head'; cs_contract := cs_contract cs;
             cs_block_delay := cs_block_delay cs; cs_nvalidators := cs_nvalidators cs |}
          cstore (Some h) (Some p) ack src dst seq c = Ok tt.
-Proof. exact gate_bypass. Qed.
-Print Assumptions C08_gate_bypass.
+Proof. exact gate_bypass_old. Qed.
+Print Assumptions C08_gate_bypass_refuted.
 
-(** Concrete witness, recorded from the real code (harness/cmd/c08/corpus.jsonl, case 900002; tables = real
-    Keccak256 / trie.VerifyProof / encoding/json results): head 1-96135, proof height 0-96141, delay 8.
-    Both Go copies accepted it, the model accepts it, and the property monitor reports kind 21 for both. *)
+(** Concrete witness, replayed on the real code by every check (harness/cmd/c08/corpus.jsonl, case 900002;
+    tables = real Keccak256 / trie.VerifyProof / encoding/json results): head 1-96135, proof height 0-96141,
+    delay 8.  The old code accepted it (both Go copies returned nil before 0ebe7e9; [verify_old] = Ok); the
+    repaired code rejects it (observed classes 1 / 1, [verify] = Err) and the property monitor is silent. *)
 Theorem C08_height_above_head_refuted :
   exists c h,
     c_height c = Some h /\ h64 h /\ h64 (c_head c) /\
     rh (c_head c) < rh h /\                                   (* proof height 6 blocks ABOVE the head *)
     0 < delay_block (cs_of c ETH) /\ 0 < delay_block (cs_of c BSC) /\
-    oracle_miss c ETH = false /\ oracle_miss c BSC = false /\
+    verify_old (keccak_of c) (mpt_of c) (json_of c) (cs_of c ETH) (cstore_of c) (c_height c) (c_proof c)
+               (c_ack c) (c_src c) (c_dst c) (c_seq c) (c_commitment c) = Ok tt /\
+    verify_old (keccak_of c) (mpt_of c) (json_of c) (cs_of c BSC) (cstore_of c) (c_height c) (c_proof c)
+               (c_ack c) (c_src c) (c_dst c) (c_seq c) (c_commitment c) = Ok tt /\
+    (* the repaired code: model and observation *)
     verify (keccak_of c) (mpt_of c) (json_of c) (cs_of c ETH) (cstore_of c) (c_height c) (c_proof c)
-           (c_ack c) (c_src c) (c_dst c) (c_seq c) (c_commitment c) = Ok tt /\
+           (c_ack c) (c_src c) (c_dst c) (c_seq c) (c_commitment c) = Err /\
     verify (keccak_of c) (mpt_of c) (json_of c) (cs_of c BSC) (cstore_of c) (c_height c) (c_proof c)
-           (c_ack c) (c_src c) (c_dst c) (c_seq c) (c_commitment c) = Ok tt /\
-    c_eth_class c = 0%nat /\ c_bsc_class c = 0%nat /\         (* observed on the real code *)
-    monitor_failures [c] = [(0, (0, 21)); (0, (1, 21))]%nat.
+           (c_ack c) (c_src c) (c_dst c) (c_seq c) (c_commitment c) = Err /\
+    c_eth_class c = 1%nat /\ c_bsc_class c = 1%nat /\
+    mismatches [c] = [] /\ monitor_failures [c] = [].
 Proof.
   exists witness_above_head, {| rn := 0; rh := 96141 |}. vm_compute.
   repeat split; try reflexivity; try discriminate.
 Qed.
 Print Assumptions C08_height_above_head_refuted.
 
-(** Hence the numeric reading of the gates without the same-revision premise is false. *)
+(** Hence the numeric reading of the old gates was false. *)
 Theorem C08_numeric_gate_refuted :
   ~ (forall keccak256 mpt_verify json_proof cs cstore h p ack src dst seq c,
        h64 h -> h64 (cs_head cs) ->
-       verify keccak256 mpt_verify json_proof cs cstore (Some h) (Some p) ack src dst seq c = Ok tt ->
+       verify_old keccak256 mpt_verify json_proof cs cstore (Some h) (Some p) ack src dst seq c = Ok tt ->
        rh h <= rh (cs_head cs)).
 Proof.
   intro H.
-  destruct C08_height_above_head_refuted as (c & h & EH & Hh & HH & LT & _ & _ & _ & _ & V & _).
+  destruct C08_height_above_head_refuted as (c & h & EH & Hh & HH & LT & _ & _ & V & _).
   destruct (c_proof c) as [p|] eqn:EP.
   - rewrite EH in V.
     assert (HH' : h64 (cs_head (cs_of c ETH))) by exact HH.
     specialize (H _ _ _ _ _ _ _ _ _ _ _ _ Hh HH' V). cbn [cs_of cs_head] in H. lia.
-  - rewrite EH in V. apply verify_ok_iff in V. destruct V as (? & ? & _ & E & _). discriminate.
+  - rewrite EH in V. apply verify_gen_ok_iff in V. destruct V as (? & ? & _ & E & _). discriminate.
 Qed.
 Print Assumptions C08_numeric_gate_refuted.
